@@ -33,6 +33,7 @@ func ruleNum(c *Ctx) {
 	for _, lb := range c.bodies() {
 		lb.textProvenance(l)
 	}
+	b.floatWidth(l)
 	// (ii) convertNumber
 	if cn := b.method(b.Codec, "decodeState", "convertNumber"); cn == nil {
 		l.add("R-NUM", "codec", "anchor convertNumber", "", Undecided, "(*decodeState).convertNumber not found", false)
